@@ -260,7 +260,85 @@ func ruleParseTime(c *Ctx) {
 			}
 		}
 		if !found {
-			c.OKTrivial(key+"/fraction-scale", P.pos(fn.Pos()), "no per-digit scale division found")
+			// the other spelling: digits accumulated under a counter test, the scale looked up afterwards. At most
+			// nine digits may accumulate (ten make the fraction exceed a second).
+			type acc struct {
+				add *ssa.BinOp
+				l   *Loop
+			}
+			var accs []acc
+			for _, l := range loopsOf(fn) {
+				for b := range l.Blocks {
+					for _, ins := range b.Instrs {
+						add, ok := ins.(*ssa.BinOp)
+						if !ok || add.Op != token.ADD {
+							continue
+						}
+						mul, ok := add.X.(*ssa.BinOp)
+						if !ok || mul.Op != token.MUL {
+							continue
+						}
+						ten, isK := constInt(mul.Y)
+						phi, isPhi := mul.X.(*ssa.Phi)
+						if !isK || ten != 10 || !isPhi || phi.Block() != l.Header {
+							continue
+						}
+						accs = append(accs, acc{add, l})
+					}
+				}
+			}
+			if len(accs) == 0 {
+				c.Unk(key+"/fraction-scale", P.pos(fn.Pos()), "the way fraction digits are accumulated and scaled is not understood")
+			}
+			for _, a := range accs {
+				// a counter test dominating the accumulation: n < K with n a zero-based counter of the loop
+				bound := int64(-1)
+				for _, cmp := range cmpFactsAt(a.add.Block()) {
+					phi, isPhi := cmp.X.(*ssa.Phi)
+					if !isPhi || phi.Block() != a.l.Header {
+						continue
+					}
+					zero, plusOne := false, false
+					for _, e := range phi.Edges {
+						if z, ok := constInt(e); ok && z == 0 {
+							zero = true
+						}
+						if bo, ok := e.(*ssa.BinOp); ok && bo.Op == token.ADD && bo.X == ssa.Value(phi) {
+							if one, ok := constInt(bo.Y); ok && one == 1 {
+								plusOne = true
+							}
+						}
+						if ph2, ok := e.(*ssa.Phi); ok {
+							for _, e2 := range ph2.Edges {
+								if bo, ok := e2.(*ssa.BinOp); ok && bo.Op == token.ADD && bo.X == ssa.Value(phi) {
+									if one, ok := constInt(bo.Y); ok && one == 1 {
+										plusOne = true
+									}
+								}
+							}
+						}
+					}
+					if !zero || !plusOne {
+						continue
+					}
+					if k, ok := (Folder{P}).FoldInt(cmp.Y); ok {
+						switch cmp.Op {
+						case token.LSS:
+							bound = k
+						case token.LEQ:
+							bound = k + 1
+						}
+					}
+				}
+				switch {
+				case bound < 0:
+					c.Unk(key+"/fraction-scale", P.pos(a.add.Pos()), "fraction digits accumulate without a recognised bound on their number")
+				case bound > 9:
+					c.Bad(key+"/fraction-scale", P.pos(a.add.Pos()), fmt.Sprintf("up to %d fraction digits are accumulated; beyond nine the value exceeds a second's worth of nanoseconds and is carried into the seconds", bound))
+				default:
+					c.OK(key+"/fraction-scale", P.pos(a.add.Pos()), fmt.Sprintf("at most %d fraction digits are accumulated", bound))
+				}
+			}
 		}
 	}
 
@@ -650,5 +728,40 @@ func rulePTPure(c *Ctx) {
 			}
 		}
 		c.Check(bad == "", fnKey(f)+"/pure", P.pos(f.Pos()), "no package-level state besides the zone cache", "the timestamp parser "+bad+": what it returns for one text can depend on texts parsed before")
+	}
+}
+
+// ---------- TS-UTC
+
+// ruleTSUTC: dates and timestamps are defined without reference to any zone.
+// time.Unix hands back a time in the process's local zone; calendar
+// arithmetic or calendar fields taken from it depend on that zone unless the
+// value is moved to UTC first.
+func ruleTSUTC(c *Ctx) {
+	c.Rule("TS-UTC", "no codec of the time package does calendar arithmetic on, or takes calendar fields from, a time in the process's local zone", 1)
+	P := c.P
+	zoneDependent := map[string]bool{"AddDate": true, "Date": true, "Clock": true, "Year": true, "Month": true, "Day": true, "Hour": true, "Minute": true, "Second": true, "YearDay": true, "Weekday": true, "ISOWeek": true, "Truncate": false, "Format": true, "Zone": true}
+	n := 0
+	for _, fn := range P.ModuleFuncs() {
+		if fn.Pkg != P.Time || fn.Signature.Recv() == nil {
+			continue
+		}
+		for _, cs := range callsIn(fn) {
+			if cs.Static == nil || cs.Static.Pkg == nil || cs.Static.Pkg.Pkg.Path() != "time" || cs.Static.Signature.Recv() == nil || !zoneDependent[cs.Static.Name()] {
+				continue
+			}
+			// where does the receiver come from?
+			recv := cs.Common.Args[0]
+			if call, ok := recv.(*ssa.Call); ok && call.Call.StaticCallee() != nil {
+				switch qualName(call.Call.StaticCallee()) {
+				case "time.Unix", "time.UnixMilli", "time.UnixMicro", "time.Now":
+					n++
+					c.Bad(fmt.Sprintf("%s/local-zone#%d", fnKey(fn), n), P.pos(cs.Instr.Pos()), fmt.Sprintf("(time.Time).%s is applied to the result of %s, which is in the process's local zone: the value decoded or written depends on where the program runs", cs.Static.Name(), qualName(call.Call.StaticCallee())))
+				}
+			}
+		}
+	}
+	if n == 0 {
+		c.OK("time/no-local-zone-arithmetic", "-", "no calendar arithmetic on a local-zone time in the time package's codecs")
 	}
 }
